@@ -992,6 +992,9 @@ func (fr *Frame) unop(ins *ssa.UnOp, st *State, reach string) *Val {
 			if x.mode == "bv" {
 				return x.scalar("(bvneg "+v.T+")", ins.Type())
 			}
+			if x.wrap {
+				return x.scalar(x.wrapTerm("(- "+v.T+")", ins.Type(), true), ins.Type())
+			}
 			r := x.scalar("(- "+v.T+")", ins.Type())
 			x.ovfCheck(r, reach, x.posOf(ins))
 			return r
@@ -1070,8 +1073,38 @@ func (x *VC) cmpS(op, a, b string) string {
 	return "(" + op + " " + a + " " + b + ")"
 }
 
+// wrapTerm gives the exact machine result of a mathematical term t whose distance from the
+// type's range is less than one period (true for + and - of in-range operands).
+func (x *VC) wrapTerm(t string, ty types.Type, single bool) string {
+	b, ok := isIntType(ty)
+	if !ok {
+		return t
+	}
+	n, signed := x.intBits(b)
+	if n == 0 {
+		return t
+	}
+	period := new(big.Int).Lsh(big.NewInt(1), uint(n)).String()
+	var lo, hi string
+	if signed {
+		hi = new(big.Int).Sub(new(big.Int).Lsh(big.NewInt(1), uint(n-1)), big.NewInt(1)).String()
+		lo = "(- " + new(big.Int).Lsh(big.NewInt(1), uint(n-1)).String() + ")"
+	} else {
+		hi = new(big.Int).Sub(new(big.Int).Lsh(big.NewInt(1), uint(n)), big.NewInt(1)).String()
+		lo = "0"
+	}
+	if single {
+		return fmt.Sprintf("(ite (> %s %s) (- %s %s) (ite (< %s %s) (+ %s %s) %s))", t, hi, t, period, t, lo, t, period, t)
+	}
+	u := fmt.Sprintf("(mod %s %s)", t, period)
+	if signed {
+		return fmt.Sprintf("(ite (> %s %s) (- %s %s) %s)", u, hi, u, period, u)
+	}
+	return u
+}
+
 func (x *VC) ovfCheck(r *Val, reach, pos string) {
-	if x.mode != "math" || x.noOvf {
+	if x.mode != "math" || x.noOvf || x.wrap {
 		return
 	}
 	rg := x.typeRange(r.T, r.GT)
@@ -1249,8 +1282,41 @@ func (x *VC) binop(op token.Token, a, b *Val, opT, resT types.Type, reach, pos s
 		return bval("(> " + a.T + " " + b.T + ")")
 	case token.GEQ:
 		return bval("(>= " + a.T + " " + b.T + ")")
+	case token.AND, token.OR, token.AND_NOT:
+		// bit operations with a single-bit constant mask, in integer arithmetic
+		val, mask := a, b
+		m, ok := x.litInt(b.T)
+		if !ok {
+			m, ok = x.litInt(a.T)
+			val, mask = b, a
+		}
+		_ = mask
+		if !ok || m <= 0 || m&(m-1) != 0 || signed {
+			x.refuse("operator %s in math mode needs a single-bit constant mask (use mode bv)", op)
+		}
+		bit := fmt.Sprintf("(= (mod (div %s %d) 2) 1)", val.T, m)
+		switch op {
+		case token.AND:
+			t = fmt.Sprintf("(ite %s %d 0)", bit, m)
+		case token.OR:
+			t = fmt.Sprintf("(ite %s %s (+ %s %d))", bit, val.T, val.T, m)
+		case token.AND_NOT:
+			if val != a {
+				x.refuse("constant &^ value in math mode")
+			}
+			t = fmt.Sprintf("(ite %s (- %s %d) %s)", bit, val.T, m, val.T)
+		}
+		return x.scalar(x.define("bit", "Int", t), resT)
 	default:
 		x.refuse("operator %s in math mode (use mode bv)", op)
+	}
+	if x.wrap && x.specArith == 0 {
+		switch op {
+		case token.ADD, token.SUB:
+			t = x.wrapTerm(x.define("raw", "Int", t), resT, true)
+		case token.MUL:
+			t = x.wrapTerm(x.define("raw", "Int", t), resT, false)
+		}
 	}
 	r := x.scalar(x.define("ar", "Int", t), resT)
 	if op == token.ADD || op == token.SUB || op == token.MUL {
@@ -1276,6 +1342,14 @@ func (x *VC) convert(v *Val, from, to types.Type, reach, pos string, st *State) 
 			default:
 				return x.scalar(fmt.Sprintf("((_ zero_extend %d) %s)", tn-fn, v.T), to)
 			}
+		}
+		if x.wrap {
+			fn, fs := x.intBits(fb)
+			tn, ts := x.intBits(tb)
+			if (fs == ts && fn <= tn) || (!fs && ts && fn < tn) {
+				return x.scalar(v.T, to) // value-preserving
+			}
+			return x.scalar(x.define("cv", "Int", x.wrapTerm(v.T, to, fn == tn)), to)
 		}
 		r := x.scalar(v.T, to)
 		x.ovfCheck(r, reach, pos)
